@@ -16,7 +16,11 @@ literals in `namespace Hfsm.Generated.Rng`, every constant the RNG code is writt
     the index of `_state[2] ^= t`, index and amount of the final `rotl`;
   * the four `jump()` functions: the JUMP table, the inner loop bound, (the loop shape is checked);
   * `uniform(uint32_t)` / `uniform(uint64_t)`: exponent pattern, its shift, the mantissa shift;
-  * `rotl` widths, `widen` shift, the order in which `BaseRandomT<N>` fills `_state[0..3]`.
+  * `rotl` widths, `widen` shift, the order in which `BaseRandomT<N>` fills `_state[0..3]`;
+  * for `FloatRandomT<4>::uint64()` / `IntRandomT<4>::uint64()`: which argument of `widen` receives the
+    FIRST `uint32()` draw.  Only the sequenced shape `{ const uint32_t x = uint32(); const uint32_t y =
+    uint32(); return widen(x, y); }` (any variable names, either argument order) is accepted; the
+    historical `return widen(uint32(), uint32());` has an unspecified evaluation order and is rejected.
 
 Everything that is *shape* rather than constant (the retry loop `for(;;) if (n = raw()) return n;`,
 the jump double loop, the one-line wrappers `float32()`, `uint32()`, `uint64()`, `next()` in the
@@ -337,6 +341,7 @@ def extract(src_text):
 
     # ---- in-class one-line wrappers (shape only) ---------------------------------------------------
     section("in-class wrappers (shape checked by the extractor; 1 = recognised)")
+    widen_first = {}
     for clsname in ("FloatRandomT", "IntRandomT"):
         for n in (8, 4):
             what = "class %s<%d> body" % (clsname, n)
@@ -351,13 +356,33 @@ def extract(src_text):
                 has(r"uint32_tuint32\(\)noexcept\{returnstatic_cast<uint32_t>\(uint64\(\)\);\}", "uint32")
                 has(r"uint64_tuint64\(\)noexcept;", "uint64")
             else:
-                has(r"uint64_tuint64\(\)noexcept\{returnwiden\(uint32\(\),uint32\(\)\);\}", "uint64")
+                # uint64() of the 4-byte variants: two uint32() draws combined by widen().  Only shapes whose
+                # evaluation order the language DEFINES are accepted: two sequenced declarations, then widen
+                # of the two variables.  The historical `return widen(uint32(), uint32());` leaves the order of
+                # the two draws unspecified (g++ draws the right argument first, clang the left one) and is
+                # rejected, so that its return breaks the obligation.
+                if re.search(r"uint64_tuint64\(\)noexcept\{returnwiden\(uint32\(\),uint32\(\)\);\}", body):
+                    raise ShapeError("%s: `uint64()` is `widen(uint32(), uint32())` -- the order of the two draws is "
+                                     "UNSPECIFIED in C++ (compiler-dependent result); no order fact can be extracted" % what)
+                m = re.search(r"uint64_tuint64\(\)noexcept\{constuint32_t([A-Za-z_]\w*)=uint32\(\);"
+                              r"constuint32_t([A-Za-z_]\w*)=uint32\(\);returnwiden\(([A-Za-z_]\w*),([A-Za-z_]\w*)\);\}", body)
+                if not m:
+                    raise ShapeError("%s: member `uint64` not of the recognised sequenced shape "
+                                     "`{ const uint32_t A = uint32(); const uint32_t B = uint32(); return widen(A|B, B|A); }`" % what)
+                first, second, arg0, arg1 = m.groups()
+                if first == second or {arg0, arg1} != {first, second} or arg0 == arg1:
+                    raise ShapeError("%s: `uint64()` does not pass each of its two draws to widen exactly once" % what)
+                widen_first[(clsname, n)] = 0 if arg0 == first else 1
                 has(r"uint32_tuint32\(\)noexcept;", "uint32")
             if clsname == "FloatRandomT":
                 has(r"floatnext\(\)noexcept\{returnfloat32\(\);\}", "next")
             has(r"voidjump\(\)noexcept;", "jump")
             has(r"usingBase::BaseRandomT;", "inherited constructors")
     put("wrappersRecognised", 1)
+    section("uint64() of the 4-byte variants: which argument of widen(x, y) = x << 32 | y receives the FIRST uint32() draw")
+    put("f4WidenFirstDrawArg", widen_first[("FloatRandomT", 4)],
+        "0: first draw is widen's first argument (high half); 1: first draw is the second argument (low half)")
+    put("i4WidenFirstDrawArg", widen_first[("IntRandomT", 4)])
 
     # ---- sanity: `_state` has four words; the model's S4.get/S4.set are written for indices 0..3 ----
     for name, v in F.items():
